@@ -114,3 +114,57 @@ def note_stats(case, ctx):
 
 def model_of(case):
     return portfolio.FUZZ_MODELS[case['fuzz']]
+
+
+def struct_fuzz_phase(prop_id, runs):
+    """Coverage-guided *structured* fuzzing: libFuzzer bytes drive the
+    property's own Hypothesis strategy (hypothesis.fuzz_one_input), coverage of
+    yatiml/ and yaml/ guides it, the property's check() is the oracle."""
+    import hashlib
+    import json
+
+    def gen(shard, nshards):
+        if not available():
+            yield {'fuzz_stats': {'skipped': 'atheris not installed (setup.sh)'}}
+            return
+        seed = int(os.environ.get('VERIF_SEED', '1') or 1)
+        d = os.path.join(ROOT, '.scratch', 'sfuzz_%s_%d_%d' % (prop_id, os.getpid(), shard))
+        shutil.rmtree(d, ignore_errors=True)
+        corpus = os.path.join(d, 'corpus')
+        os.makedirs(corpus)
+        for i in range(6):
+            data = b''.join(hashlib.sha256(b'%d-%d-%d-%d' % (seed, shard, i, j)).digest()
+                            for j in range(64 + 32 * i))
+            with open(os.path.join(corpus, 'r%d' % i), 'wb') as f:
+                f.write(data)
+        out_dir = os.path.join(d, 'out')
+        cmd = [sys.executable, os.path.join(ROOT, 'fuzz', 'fuzz_prop.py'), prop_id, out_dir,
+               '-runs=%d' % runs, '-max_len=8192', '-seed=%d' % ((seed * 1000 + shard) % (2 ** 31 - 1) + 1),
+               '-artifact_prefix=' + os.path.join(d, 'art_'), '-print_final_stats=1', corpus]
+        try:
+            p = subprocess.run(cmd, stdout=subprocess.PIPE, stderr=subprocess.STDOUT, timeout=1500)
+            out = p.stdout.decode('utf-8', 'replace')
+        except subprocess.TimeoutExpired as e:
+            out = (e.stdout or b'').decode('utf-8', 'replace')
+        cases = sorted(f for f in os.listdir(out_dir) if f.startswith('case_')) \
+            if os.path.isdir(out_dir) else []
+        if 'Traceback (most recent call last)' in out and 'Violation' not in out and not cases:
+            raise RuntimeError('structured fuzz target failed:\n' + out[-1500:])
+        m = re.search(r'stat::number_of_executed_units:\s*(\d+)', out)
+        n = 0
+        try:
+            n = int(open(os.path.join(out_dir, 'count.txt')).read())
+        except Exception:
+            pass
+        cov = re.findall(r'cov: (\d+)', out)
+        yield {'fuzz_stats': {'execs': n, 'cov': int(cov[-1]) if cov else 0, 'corpus': 'seeded',
+                              'corpus_files': len(os.listdir(corpus)),
+                              'libfuzzer_units': int(m.group(1)) if m else 0}}
+        for c in cases:
+            with open(os.path.join(out_dir, c)) as f:
+                yield json.load(f)['case']
+        shutil.rmtree(d, ignore_errors=True)
+    return EnumPhase('atheris_structured_%s' % prop_id, gen,
+                     'coverage-guided fuzzing of the property\'s own (model, document/value) '
+                     'strategy through hypothesis.fuzz_one_input, %d libFuzzer runs per shard '
+                     '(not exhaustive)' % runs, exhaustive=False)
